@@ -32,6 +32,7 @@ ASSUMPTIONS = [
 ]
 BUDGET = {'quick': 6, 'thorough': 40}
 WALL = {'quick': 900, 'thorough': 3 * 3600}
+CASE_LIMIT = {'quick': 1200, 'thorough': 3000}     # up to 2^5 + 6 tool runs per case
 EXHAUSTIVE_NOTE = {'quick': 'all 2^n fault subsets of every generated input (n <= 5)',
     'thorough': 'all 2^n fault subsets of every generated input (n <= 5)'}
 
